@@ -259,6 +259,8 @@ def rule_edge_keys(ctx: Ctx) -> None:
 
 
 def run(ctx: Ctx) -> None:
+    from ..rules import memo as _memo
+    _memo.rule_memo_sound(ctx, ['graphiq/circuit/circuit_dag.py', 'graphiq/circuit/circuit_base.py'])
     rule_own_dag(ctx)
     rule_nodekeys(ctx)
     rule_own_registers(ctx)
